@@ -37,6 +37,7 @@ type Gen struct {
 	lastRootsIdx uint64
 	script       []func() (structs.MessageType, any, string) // scripted multi-step scenarios, consumed before random commands
 	NoSerf       bool                                        // a running leader reaps nodes carrying a serfHealth check that are no serf members
+	lastStatus   map[string]string                           // last status registered per check (peer/node/id)
 	lastCreate   *structs.SessionRequest
 	lastEst      map[string]string // peering id -> last establishment / pending secret written (so that exchanges and promotions sometimes match)
 	lastPend     map[string]string
@@ -57,7 +58,7 @@ func (g *Gen) recentSess() string {
 
 func NewGen(seed int64) *Gen {
 	// raft indexes of client commands never start at 1 (bootstrap configuration entries come first)
-	g := &Gen{R: rand.New(rand.NewSource(seed)), lastKVIdx: map[string]uint64{}, Idx: 10, lastEst: map[string]string{}, lastPend: map[string]string{}}
+	g := &Gen{R: rand.New(rand.NewSource(seed)), lastKVIdx: map[string]uint64{}, Idx: 10, lastEst: map[string]string{}, lastPend: map[string]string{}, lastStatus: map[string]string{}}
 	g.loadScripts(seed)
 	return g
 }
@@ -170,6 +171,13 @@ func (g *Gen) check(node, svcID, peer string) *structs.HealthCheck {
 	}
 	hc := &structs.HealthCheck{Node: node, CheckID: types.CheckID(cid), Name: "chk", Status: g.pick(gStatuses),
 		ServiceID: svcID, Output: g.pick(gVals), PeerName: peer}
+	// an output-only refresh of a check (same status as the last registration of that check id) is the most common
+	// check write of a real agent
+	key := peer + "/" + node + "/" + cid
+	if last, ok := g.lastStatus[key]; ok && g.chance(3) {
+		hc.Status = last
+	}
+	g.lastStatus[key] = hc.Status
 	if g.chance(5) {
 		hc.Type = "session"
 		hc.Definition.SessionName = g.pick([]string{"sn", "sm"})
